@@ -115,6 +115,8 @@ def reshape(req):
         data_util.update_consumers(consumers.values(), requested_attrs)
 
         reshaper.reshape(ctx, inventory_by_rp, allocation_objects)
+        data_util.delete_new_consumers_without_allocations(
+            ctx, new_consumers_created)
 
     def _create_allocations():
         try:
